@@ -287,6 +287,47 @@ def run(ctx):
         ctx.count("hash-seeds")
     if len(set(digests.values())) != 1:
         ctx.violation("results differ between PYTHONHASHSEED values", {"programs": batch}, expected="one digest", observed=digests)
+    # ------------------------------------------------------------------ (c2) a probe as the very first assembly of a fresh
+    # interpreter against the same probe after other assemblies in another fresh interpreter (interpreter-wide settings and
+    # one-time initialisation cannot be reset by re-importing the package, only a new process is fresh)
+    import re as _re
+    first_probes = [".word 1 << 20000.\n", "big = 1 << 15000.\n.word big\n", ".byte 7 * (1 << 16000.)\n", "x = %s\n.word x\n" % ("7" * 4400),
+                    ".word 19\n", ".byte\n", "clr @r1\n", "mov #UNDEF, r0\n", ".ascii \"a€b\"\n", ".rad50 /a!b/\n", "br .+1000\n"] + PROBES[:4]
+    env2 = {k: v for k, v in os.environ.items() if k != "PDPY11_VERIF"}
+    env2.update(PYTHONPATH=REPO, PYTHONDONTWRITEBYTECODE="1", PYTHONHASHSEED="0")
+
+    def summary(exit_code, out_text):
+        rows = sorted((int(m.group(1)), int(m.group(2)), m.group(3)) for m in _re.finditer(r"^[^\n:]*:(\d+):(\d+): (Error|Warning): ", out_text, _re.M))
+        return [exit_code, rows, "internal compiler error" in out_text]
+    d2 = impl.scratch_dir()
+    try:
+        pool_hist = POOL_VALID + POOL_INVALID
+        for pr in (first_probes if ctx.thorough else first_probes[:3] + rng.sample(first_probes[3:], 4)):
+            with open(os.path.join(d2, "probe.mac"), "w", encoding="utf-8") as f:
+                f.write(pr)
+            # (1) the real command line in a new interpreter: nothing was assembled, nothing was imported before
+            p2 = subprocess.run([PY, "-m", "pdpy11", "probe.mac", "--report-format=bare", "-o", "probe.out"], cwd=d2, env=env2,
+                                stdout=subprocess.PIPE, stderr=subprocess.PIPE, timeout=120)
+            alone = summary(p2.returncode, p2.stdout.decode("utf-8", "replace") + p2.stderr.decode("utf-8", "replace"))
+            if os.path.exists(os.path.join(d2, "probe.out")):
+                os.remove(os.path.join(d2, "probe.out"))
+            # (2) the same command line in this process, after a history of other assemblies
+            hist2 = [rng.choice(pool_hist) for _ in range(rng.randint(1, 6))]
+            for h in hist2:
+                run_one(h)
+            res2 = impl.run_cli(["probe.mac", "--report-format=bare", "-o", "probe.out"], cwd=d2)
+            after = summary(res2.exit, res2.stdout.decode("utf-8", "replace") + res2.stderr)
+            if os.path.exists(os.path.join(d2, "probe.out")):
+                os.remove(os.path.join(d2, "probe.out"))
+            ctx.case(("first-in-process", pr[:60], tuple(hist2)))
+            ctx.count("probes run first in a new interpreter and after a history in this one")
+            if alone != after:
+                ctx.violation("the result of an assembly depends on whether it is the first one of the process", {"probe": pr[:300], "history": hist2},
+                              expected=repr(after)[:300], observed=repr(alone)[:300])
+            elif alone[2]:
+                ctx.violation("the first assembly of a fresh process ended in an internal error", {"probe": pr[:300]}, expected="a result or diagnostics", observed=repr(alone)[:300])
+    finally:
+        impl.drop_scratch(d2)
     # ------------------------------------------------------------------ (d)
     audit(ctx)
 
